@@ -4,6 +4,7 @@
 package verifc05
 
 import (
+	"errors"
 	"fmt"
 	"runtime"
 	"sort"
@@ -83,17 +84,75 @@ func (g *Gauge) Peak() int64 { return atomic.LoadInt64(&g.peak) }
 // Cur is the number of holders inside the guarded region right now.
 func (g *Gauge) Cur() int64 { return atomic.LoadInt64(&g.cur) }
 
+// ---- every way of leaving the guarded function ----
+//
+// Exit kinds (one letter each): "s" panic with a string value, "e" panic with an error value, "g"
+// runtime.Goexit (deferred calls run, recover() yields nil, the goroutine ends). Go runs the deferred calls
+// for all three: in the model all three are the `panic` exit of the `user` row. History tokens: `!t` (s),
+// `#t` (e), `~t` (g).
+
+// ErrHolder is the error value the harness panics with (kind "e").
+var ErrHolder = errors.New("c05: holder panics with an error value")
+
+// ExitTok is the history mark of an abnormal exit kind.
+func ExitTok(kind byte) string {
+	switch kind {
+	case 'e':
+		return "#"
+	case 'g':
+		return "~"
+	}
+	return "!"
+}
+
+// Abort leaves the calling function the abnormal way named by kind.
+func Abort(kind byte) {
+	switch kind {
+	case 'e':
+		panic(ErrHolder)
+	case 'g':
+		runtime.Goexit()
+	}
+	panic("c05: holder panics")
+}
+
+// FinishKind maps the argument of a sequential `finish <how>` op to an exit kind (0 = normal return).
+func FinishKind(op []string) byte {
+	if len(op) < 2 {
+		return 0
+	}
+	switch op[1] {
+	case "panic":
+		return 's'
+	case "panicerr":
+		return 'e'
+	case "goexit":
+		return 'g'
+	}
+	return 0
+}
+
 // Inside is the body of every guarded region of the concurrent runs: stamp enter, gauge, hold,
 // stamp exit (normal or panic) — and panic if asked to.
 func Inside(h *Hist, ga *Gauge, r *verifh.Rng, gid, tid, panPct int) {
+	InsideK(h, ga, r, gid, tid, panPct, "s")
+}
+
+// InsideK is Inside with the abnormal exit drawn from kinds (see above). Goexit may only be offered where the
+// guarded function runs on a goroutine of the library under test (tasks, workers, per-request goroutines).
+func InsideK(h *Hist, ga *Gauge, r *verifh.Rng, gid, tid, panPct int, kinds string) {
 	id := strconv.Itoa(tid)
 	h.recAny(gid, "+"+id)
 	ga.Enter()
 	Hold(r)
 	if r.Intn(100) < panPct {
-		h.recAny(gid, "!"+id)
+		k := byte('s')
+		if len(kinds) > 0 {
+			k = kinds[r.Intn(len(kinds))]
+		}
+		h.recAny(gid, ExitTok(k)+id)
 		ga.Exit()
-		panic("c05: holder panics")
+		Abort(k)
 	}
 	h.recAny(gid, "-"+id)
 	ga.Exit()
@@ -307,11 +366,17 @@ func SeqOps(r *verifh.Rng, n, nops int, withBorrow bool, ret func() string) []st
 	return ops
 }
 
-// FinishOp is the release op of task/request kinds.
+// FinishOp is the release op of task/request kinds: normal return, panic with a string value, panic with an
+// error value, runtime.Goexit.
 func FinishOp(r *verifh.Rng) func() string {
 	return func() string {
-		if r.Chance(1, 3) {
+		switch r.Intn(9) {
+		case 0:
 			return "finish panic"
+		case 1:
+			return "finish panicerr"
+		case 2:
+			return "finish goexit"
 		}
 		return "finish"
 	}
@@ -373,7 +438,10 @@ func (s *Saturator) open(why string) {
 }
 
 // Body is the guarded function of item tid.
-func (s *Saturator) Body(r *verifh.Rng, tid, panPct int) {
+func (s *Saturator) Body(r *verifh.Rng, tid, panPct int) { s.BodyK(r, tid, panPct, "s") }
+
+// BodyK is Body with the abnormal exit drawn from kinds (see InsideK).
+func (s *Saturator) BodyK(r *verifh.Rng, tid, panPct int, kinds string) {
 	id := strconv.Itoa(tid)
 	s.H.RecShared("+" + id)
 	s.Ga.Enter()
@@ -381,9 +449,13 @@ func (s *Saturator) Body(r *verifh.Rng, tid, panPct int) {
 	<-s.release
 	Hold(r)
 	if r.Intn(100) < panPct {
-		s.H.RecShared("!" + id)
+		k := byte('s')
+		if len(kinds) > 0 {
+			k = kinds[r.Intn(len(kinds))]
+		}
+		s.H.RecShared(ExitTok(k) + id)
 		s.Ga.Exit()
-		panic("c05: holder panics")
+		Abort(k)
 	}
 	s.H.RecShared("-" + id)
 	s.Ga.Exit()
